@@ -549,6 +549,11 @@ impl<F: Field + PrimeCharacteristicRing + Copy, const D: usize> AluAir<F, D> {
                             let mut step = 0usize;
                             let mut acc = prev_ext;
                             for s in 0..num_int {
+                                // A pack of arity k < K_max uses fewer intermediates than the
+                                // row has slots for; the remaining slots stay zero.
+                                if step >= k {
+                                    break;
+                                }
                                 let i0 = *first_idx + step;
                                 let i1 = *first_idx + step + 1;
                                 let v0 = &trace.values[i0];
